@@ -596,7 +596,10 @@ def gen_conc(rng):
             if rng.chance(1, 3):     # starve one participant: it spins in the wait loop
                 v = rng.below(k)
                 sched = [v if rng.chance(1, 2) else x for x in sched]
-            ops.append("round %s | %s" % (" ".join(map(str, args)), " ".join(map(str, sched))))
+            if rng.chance(1, 4):
+                ops.append("stress %s" % " ".join(map(str, args)))
+            else:
+                ops.append("round %s | %s" % (" ".join(map(str, args)), " ".join(map(str, sched))))
         ops.append("fini")
         if rng.chance(1, 4):
             ops.append("fini")
@@ -618,6 +621,8 @@ def model_conc(ops, lines):
     k = ops[0].split()[1]
     inp = ["ncpu %d" % NCPU, "setenv MYTH_NUM_WORKERS %s" % hx(b"2"), "setenv MYTH_BIND_WORKERS %s" % hx(b"0"), "threads " + k]
     for l in lines:
+        if l.startswith("sev "):
+            continue
         inp.append("end" if l.startswith("end ") else l)
     outs = common.driver("env", inp)[4:]
     return outs
@@ -636,7 +641,23 @@ def oracle_conc(ops, lines, status):
     req = {}
     for l in lines:
         w = l.split()
-        if w[0] == "ev":
+        if w[0] == "sev":          # free-running round: arrival order only
+            p = w[1]
+            if w[2] == "call":
+                req[p] = (w[3], int(w[4]))
+            elif w[2] == "really":
+                epoch_really += 1
+                really_total += 1
+                if epoch_really > 1:
+                    bad.append("two real initialisations in one epoch under real parallelism (second by participant %s)" % p)
+                kind, n = req.get(p, ("init", 0))
+                if kind == "init_ex":
+                    want = n
+            elif w[2] == "done":
+                done = True
+            elif w[2] == "ret" and w[3] != "2":
+                bad.append("participant %s returned from its initialising call and found the library in state %s" % (p, w[3]))
+        elif w[0] == "ev":
             p = w[1]
             if w[2] == "call":
                 req[p] = (w[3], int(w[4]))
@@ -716,7 +737,7 @@ def run_case(exes, kind, envset, ops, consts):
     bad = oracle_conc(ops, lines, status)
     mod = model_conc(ops, lines)
     # acceptor output: `ok` per event, model summary per `end`
-    impl_view = [l if l.startswith("end ") else "ok" for l in lines]
+    impl_view = [l if l.startswith("end ") else "ok" for l in lines if not l.startswith("sev ")]
     return impl_view, mod, bad, lines
 
 
